@@ -10,6 +10,7 @@ THEOREMS = ['empty_group_yields_identity', 'empty_group_is_none_under_mask', 'co
             'missing_pairs_are_dropped', 'argminmax_positions_count_missing', 'keepdims_wraps_in_length_one',
             'min_max_of_nonempty_is_member_and_bound', 'any_all_are_exists_forall', 'prod_is_wrapped_product',
             'count_nonzero_counts', 'positions_matter_to_arg_reducers_only']
+PY_HALF = True     # harness/pyhalves.py: the Python-layer functions of this property under pyshim
 RULE = ('value-first random layouts (numeric/bool leaves, no NaN/inf) x 10 reducers x axis (0..depth-1, negative, some out of '
         'range) x mask_identity x keepdims; non-trivial = input has >= 2 leaves and the operation succeeded; distinct by case text')
 ASSUMPTIONS = ['float leaves are integer-valued (no rounding is modelled); NaN/inf excluded; complex/datetime leaves not generated',
